@@ -963,7 +963,7 @@ impl Scenario for AllocScenario {
         if tier == "quick" {
             200_000
         } else {
-            4_000_000
+            20_000_000
         }
     }
     fn run(&self, src: &mut Source, obs: &mut Observer) -> Result<(), Violation> {
